@@ -12,6 +12,7 @@ from liquid2 import TagToken
 from liquid2 import TokenStream
 from liquid2.builtin import parse_string_or_identifier
 from liquid2.exceptions import LiquidSyntaxError
+from liquid2.unescape import quote_identifier
 
 if TYPE_CHECKING:
     from liquid2 import RenderContext
@@ -31,7 +32,10 @@ class DecrementNode(Node):
 
     def __str__(self) -> str:
         assert isinstance(self.token, TagToken)
-        return f"{{%{self.token.wc[0]} decrement {self.name} {self.token.wc[1]}%}}"
+        return (
+            f"{{%{self.token.wc[0]} decrement {quote_identifier(self.name)} "
+            f"{self.token.wc[1]}%}}"
+        )
 
     def render_to_output(self, context: RenderContext, buffer: TextIO) -> int:
         """Render the node to the output buffer."""
